@@ -7,7 +7,8 @@ import NeumannModel.Common.FramedLog
            tensor_chain/src/distributed_tx.rs  (DistributedTxCoordinator::{begin, record_vote, commit,
                                                 abort, complete_commit, complete_abort,
                                                 cleanup_timeouts, process_pending_aborts,
-                                                recover_from_wal})
+                                                recover_from_wal, recover, get_pending_decisions,
+                                                force_resolve})
   Every coordinator operation is "append these WAL records in this order, then change memory".
   Import-free apart from the shared framed log; total; executable.
 
@@ -17,7 +18,10 @@ import NeumannModel.Common.FramedLog
     * time is an explicit argument (`now`, epoch millis) of begin / cleanup / recover;
     * the cosine cross-shard conflict test of `record_vote` is an input bit;
     * lock manager = list of (handle, tx); lock expiry is not modelled (C12);
-    * WAL I/O errors are not modelled (every append succeeds).
+    * a WAL append fails only through the size limit (`WalConfig::max_size_bytes` with
+      `auto_rotate = false`: `SizeLimitExceeded`) or rotates the file (`auto_rotate = true`:
+      the records written so far leave the file `replay` reads); other I/O errors and the
+      free-disk-space pre-check are not modelled.
 -/
 namespace Neumann.TxWal
 open Neumann.FramedLog
@@ -214,10 +218,21 @@ structure Tx where
   timeoutMs : Nat
   deriving DecidableEq, Repr
 
+/-- `DistributedTxConfig` + the part of the `WalConfig` of the coordinator's `TxWal` that decides
+    whether an append can fail -/
 structure Cfg where
   prepareTimeoutMs : Nat
   maxConcurrent : Nat
+  /-- `WalConfig::max_size_bytes`; `none` = never reached (default 1 GiB) -/
+  walCap : Option Nat := none
+  /-- `WalConfig::auto_rotate` -/
+  autoRotate : Bool := true
   deriving DecidableEq, Repr
+
+/-- the size limit never makes the file `replay` reads lose records -/
+def Cfg.NoRotate (cfg : Cfg) : Prop := cfg.walCap = none ∨ cfg.autoRotate = false
+
+instance (cfg : Cfg) : Decidable cfg.NoRotate := by unfold Cfg.NoRotate; infer_instance
 
 structure Coord where
   cfg : Cfg
@@ -238,9 +253,33 @@ inductive Res where
   | timedOut (ids : List Nat)
   | recovered (prepared committing aborting orphans : Nat)
   | flushed (n : Nat)
+  | walErr                              -- `Err(StorageError("WAL write failed"))`
+  | recStats (timedOut prepare commit abort completed : Nat)   -- `recover()`
+  | decisions (ds : List (Nat × Phase)) -- `get_pending_decisions()`
+  | cannotCommit                        -- `force_resolve(commit = true)` refused
   deriving DecidableEq, Repr
 
-def Coord.append (c : Coord) (es : List Entry) : Coord := { c with log := c.log ++ es }
+/-- bytes of a file holding `log` when the record of `e` takes `sz e` bytes -/
+def fileLen (sz : Entry → Nat) (log : List Entry) : Nat := (log.map sz).sum
+
+/-- `TxWal::append` on the file whose replay is `log` (tx_wal.rs:317): the size check either
+    lets the record through, rotates the file first (`auto_rotate`: the current file is renamed
+    away and a fresh one started — `replay` only reads the current file), or refuses
+    (`none` = `Err(SizeLimitExceeded)`). -/
+def walApp (sz : Entry → Nat) (cfg : Cfg) (log : List Entry) (e : Entry) : Option (List Entry) :=
+  match cfg.walCap with
+  | none => some (log ++ [e])
+  | some cap =>
+    if fileLen sz log + sz e > cap then
+      if cfg.autoRotate then some [e] else none
+    else some (log ++ [e])
+
+/-- `log_wal_entry(e).is_err()` ⇒ carry on: the `let _ =` / `if let Err(e) = … { error!(…) }` sites -/
+def walTry (sz : Entry → Nat) (cfg : Cfg) (log : List Entry) (e : Entry) : List Entry :=
+  (walApp sz cfg log e).getD log
+
+def walTryAll (sz : Entry → Nat) (cfg : Cfg) (log : List Entry) (es : List Entry) : List Entry :=
+  es.foldl (walTry sz cfg) log
 
 /-- `release_by_handle_with_wait_cleanup` -/
 def release (h : Nat) (locks : List (Nat × Nat)) : List (Nat × Nat) :=
@@ -266,16 +305,24 @@ def Tx.allYes (t : Tx) : Bool := t.votes.all (fun p => p.2.isYes)
 def lockAcquire (c : Coord) (tx h : Nat) : Coord × Res :=
   ({ c with locks := (h, tx) :: c.locks }, .ok)
 
-/-- `begin` (distributed_tx.rs:1216) -/
-def begin (c : Coord) (id : Nat) (parts : List Nat) (now : Nat) : Coord × Res :=
+/-- `begin` (distributed_tx.rs:1240): limit check, TxBegin logged, then inserted; a failed WAL
+    write leaves the transaction out of `pending` -/
+def begin (sz : Entry → Nat) (c : Coord) (id : Nat) (parts : List Nat) (now : Nat) : Coord × Res :=
   if c.pending.length ≥ c.cfg.maxConcurrent then (c, .tooMany)
   else
-    let c := c.append [.txBegin id parts]
-    ({ c with pending := mInsert id ⟨parts, .preparing, [], now, c.cfg.prepareTimeoutMs⟩ c.pending }, .ok)
+    match walApp sz c.cfg c.log (.txBegin id parts) with
+    | none => (c, .walErr)
+    | some l =>
+      ({ c with log := l, pending := mInsert id ⟨parts, .preparing, [], now, c.cfg.prepareTimeoutMs⟩ c.pending }, .ok)
 
-/-- `record_vote` (distributed_tx.rs:1395).  The vote is logged BEFORE it is validated. -/
-def recordVote (c : Coord) (id shard : Nat) (v : Vote) (xconflict : Bool) : Coord × Res :=
-  let c := c.append [.prepareVote id shard v.kind]
+/-- `record_vote` (distributed_tx.rs:1419).  The vote is logged BEFORE it is validated; a failed
+    write of the vote answers `Ok(None)` with nothing recorded; a failed write of the
+    PhaseChange answers `Ok(None)` with the vote recorded and the phase left at Preparing. -/
+def recordVote (sz : Entry → Nat) (c : Coord) (id shard : Nat) (v : Vote) (xconflict : Bool) : Coord × Res :=
+  match walApp sz c.cfg c.log (.prepareVote id shard v.kind) with
+  | none => (c, .phase none)
+  | some l =>
+  let c := { c with log := l }
   match mLookup id c.pending with
   | none => (c, .notFound)
   | some tx =>
@@ -292,8 +339,11 @@ def recordVote (c : Coord) (id shard : Nat) (v : Vote) (xconflict : Bool) : Coor
              .phase (some .aborting))
           else
             -- phase 3b: PhaseChange logged, then memory
-            let c := c.append [.phaseChange id .preparing .prepared]
-            ({ c with pending := mInsert id { tx with phase := .prepared } c.pending }, .phase (some .prepared))
+            match walApp sz c.cfg c.log (.phaseChange id .preparing .prepared) with
+            | none => ({ c with pending := mInsert id tx c.pending }, .phase none)
+            | some l =>
+              ({ c with log := l, pending := mInsert id { tx with phase := .prepared } c.pending },
+               .phase (some .prepared))
         else
           let reason := if tx.votes.any (fun p => decide (p.2 = Vote.conflict)) then "conflict detected"
                         else "participant voted no"
@@ -303,27 +353,39 @@ def recordVote (c : Coord) (id shard : Nat) (v : Vote) (xconflict : Bool) : Coor
       else
         ({ c with pending := mInsert id tx c.pending }, .phase none)
 
-/-- `commit` (distributed_tx.rs:1570) -/
-def commit (c : Coord) (id : Nat) : Coord × Res :=
+/-- `commit` (distributed_tx.rs:1594): PhaseChange `?`, memory Committing, TxComplete `?`, then
+    best-effort LockRelease per handle and AllLocksReleased, locks released, removed -/
+def commit (sz : Entry → Nat) (c : Coord) (id : Nat) : Coord × Res :=
   match mLookup id c.pending with
   | none => (c, .notFound)
   | some tx =>
     if tx.phase ≠ .prepared then (c, .wrongPhase tx.phase)
     else
-      let hs := voteHandles tx.votes
-      let c := c.append ([.phaseChange id .prepared .committing, .txComplete id .committed]
-                          ++ hs.map (fun h => Entry.lockRelease id h) ++ [.allLocksReleased id])
-      ({ c with locks := releaseAll hs c.locks, pending := mErase id c.pending }, .ok)
+      match walApp sz c.cfg c.log (.phaseChange id .prepared .committing) with
+      | none => (c, .walErr)
+      | some l1 =>
+        match walApp sz c.cfg l1 (.txComplete id .committed) with
+        | none => ({ c with log := l1, pending := mInsert id { tx with phase := .committing } c.pending }, .walErr)
+        | some l2 =>
+          let hs := voteHandles tx.votes
+          let l3 := walTryAll sz c.cfg l2 (hs.map (fun h => Entry.lockRelease id h))
+          let l4 := walTry sz c.cfg l3 (.allLocksReleased id)
+          ({ c with log := l4, locks := releaseAll hs c.locks, pending := mErase id c.pending }, .ok)
 
-/-- `abort` (distributed_tx.rs:1707): from any phase; no LockRelease / AllLocksReleased records -/
-def abort (c : Coord) (id : Nat) : Coord × Res :=
+/-- `abort` (distributed_tx.rs:1740): from any phase; no LockRelease / AllLocksReleased records -/
+def abort (sz : Entry → Nat) (c : Coord) (id : Nat) : Coord × Res :=
   match mLookup id c.pending with
   | none => (c, .notFound)
   | some tx =>
-    let c := c.append [.phaseChange id tx.phase .aborting, .txComplete id .aborted]
-    ({ c with locks := releaseAll (voteHandles tx.votes) c.locks, pending := mErase id c.pending }, .ok)
+    match walApp sz c.cfg c.log (.phaseChange id tx.phase .aborting) with
+    | none => (c, .walErr)
+    | some l1 =>
+      match walApp sz c.cfg l1 (.txComplete id .aborted) with
+      | none => ({ c with log := l1, pending := mInsert id { tx with phase := .aborting } c.pending }, .walErr)
+      | some l2 =>
+        ({ c with log := l2, locks := releaseAll (voteHandles tx.votes) c.locks, pending := mErase id c.pending }, .ok)
 
-/-- `complete_commit` (distributed_tx.rs:1640): memory only -/
+/-- `complete_commit` (distributed_tx.rs:1667): memory only -/
 def completeCommit (c : Coord) (id : Nat) : Coord × Res :=
   match mLookup id c.pending with
   | none => (c, .notFound)
@@ -331,7 +393,7 @@ def completeCommit (c : Coord) (id : Nat) : Coord × Res :=
     if tx.phase ≠ .committing then (c, .wrongPhase tx.phase)
     else ({ c with locks := releaseAll (voteHandles tx.votes) c.locks, pending := mErase id c.pending }, .ok)
 
-/-- `complete_abort` (distributed_tx.rs:1675): memory only -/
+/-- `complete_abort` (distributed_tx.rs:1705): memory only -/
 def completeAbort (c : Coord) (id : Nat) : Coord × Res :=
   match mLookup id c.pending with
   | none => (c, .notFound)
@@ -339,7 +401,7 @@ def completeAbort (c : Coord) (id : Nat) : Coord × Res :=
     if tx.phase ≠ .aborting then (c, .wrongPhase tx.phase)
     else ({ c with locks := releaseAll (voteHandles tx.votes) c.locks, pending := mErase id c.pending }, .ok)
 
-/-- `cleanup_timeouts` (distributed_tx.rs:1762): nothing is written to the WAL -/
+/-- `cleanup_timeouts` (distributed_tx.rs:1798): nothing is written to the WAL -/
 def cleanupTimeouts (c : Coord) (now : Nat) : Coord × Res :=
   let out := c.pending.filter (fun p => p.2.timedOut now)
   ({ c with pending := c.pending.filter (fun p => !p.2.timedOut now)
@@ -347,10 +409,11 @@ def cleanupTimeouts (c : Coord) (now : Nat) : Coord × Res :=
             locks := releaseAll (out.flatMap (fun p => voteHandles p.2.votes)) c.locks },
    .timedOut (mKeys out))
 
-/-- `process_pending_aborts` (distributed_tx.rs:1841): one AbortIntent record per queued abort -/
-def flushAborts (c : Coord) : Coord × Res :=
-  let c' := c.append (c.pendingAborts.map (fun p => Entry.abortIntent p.1 p.2.1 p.2.2))
-  ({ c' with pendingAborts := [] }, .flushed c.pendingAborts.length)
+/-- `process_pending_aborts` (distributed_tx.rs:1880): one AbortIntent record per queued abort;
+    a failed write is reported and skipped -/
+def flushAborts (sz : Entry → Nat) (c : Coord) : Coord × Res :=
+  ({ c with log := walTryAll sz c.cfg c.log (c.pendingAborts.map (fun p => Entry.abortIntent p.1 p.2.1 p.2.2))
+            pendingAborts := [] }, .flushed c.pendingAborts.length)
 
 /-- `restore_tx`: fresh start time, the 5000 ms default of `DistributedTransaction::new`,
     votes re-inserted one by one into the map (a later vote of the same shard overwrites) -/
@@ -362,7 +425,7 @@ def restoreTx (r : RecTx) (ph : Phase) (now : Nat) : Tx :=
 def restoreAll (rs : List RecTx) (ph : Phase) (now : Nat) (pending : List (Nat × Tx)) : List (Nat × Tx) :=
   rs.foldl (fun m r => mInsert r.tx (restoreTx r ph now) m) pending
 
-/-- `recover_from_wal` (distributed_tx.rs:1124) -/
+/-- `recover_from_wal` (distributed_tx.rs:1148) -/
 def recoverFromWal (c : Coord) (now : Nat) : Coord × Res :=
   let st := fromEntries c.log
   let p := restoreAll st.prepared .prepared now c.pending
@@ -370,6 +433,51 @@ def recoverFromWal (c : Coord) (now : Nat) : Coord × Res :=
   let p := restoreAll st.aborting .aborting now p
   ({ c with pending := p, locks := releaseAll (st.orphaned.map (·.2)) c.locks },
    .recovered st.prepared.length st.committing.length st.aborting.length st.orphaned.length)
+
+/-- what `recover()` does to one pending transaction (distributed_tx.rs:2102-2144); `any_no()` is
+    the complement of `all_yes()` (a vote is Yes, No or Conflict), so the "still waiting" arm of
+    the Prepared case is dead -/
+def recoverTx (now : Nat) (t : Tx) : Tx :=
+  match t.phase with
+  | .preparing => if t.timedOut now then { t with phase := .aborting } else t
+  | .prepared =>
+      if t.timedOut now then { t with phase := .aborting }
+      else if t.allYes then { t with phase := .committing }
+      else { t with phase := .aborting }
+  | _ => t
+
+def Phase.final (p : Phase) : Bool := decide (p = .committed ∨ p = .aborted)
+
+/-- `recover()` (distributed_tx.rs:2095): memory only.  Timed-out Preparing / Prepared
+    transactions become Aborting, Prepared ones with all YES become Committing, entries already
+    in a final phase are dropped with their locks. -/
+def recoverMem (c : Coord) (now : Nat) : Coord × Res :=
+  let fin := c.pending.filter (fun p => p.2.phase.final)
+  let live := c.pending.filter (fun p => !p.2.phase.final)
+  let cnt := fun (f : Tx → Bool) => (live.filter (fun p => f p.2)).length
+  ({ c with pending := live.map (fun p => (p.1, recoverTx now p.2))
+            locks := releaseAll (fin.flatMap (fun p => voteHandles p.2.votes)) c.locks },
+   .recStats
+     (cnt fun t => (decide (t.phase = .preparing) || decide (t.phase = .prepared)) && t.timedOut now)
+     (cnt fun t => decide (t.phase = .preparing) && !t.timedOut now)
+     (cnt fun t => (decide (t.phase = .prepared) && !t.timedOut now && t.allYes) || decide (t.phase = .committing))
+     (cnt fun t => (decide (t.phase = .prepared) && !t.timedOut now && !t.allYes) || decide (t.phase = .aborting))
+     fin.length)
+
+/-- `get_pending_decisions()` (distributed_tx.rs:2169) -/
+def pendingDecisions (c : Coord) : List (Nat × Phase) :=
+  (c.pending.filter (fun p => decide (p.2.phase = .committing ∨ p.2.phase = .aborting))).map
+    (fun p => (p.1, p.2.phase))
+
+/-- `force_resolve` (distributed_tx.rs:2214): memory only, nothing logged -/
+def forceResolve (c : Coord) (id : Nat) (commitIt : Bool) : Coord × Res :=
+  match mLookup id c.pending with
+  | none => (c, .notFound)
+  | some tx =>
+    if commitIt && !(tx.allYes || decide (tx.phase = .prepared) || decide (tx.phase = .committing)) then
+      (c, .cannotCommit)
+    else
+      ({ c with locks := releaseAll (voteHandles tx.votes) c.locks, pending := mErase id c.pending }, .ok)
 
 /-- a new process: `DistributedTxCoordinator::new(cfg).with_wal(TxWal::open(path))` over a file
     whose replay yields `es`, followed by `recover_from_wal` -/
@@ -395,26 +503,35 @@ inductive Step where
   | cleanup (now : Nat)
   | flushAborts
   | recover (now : Nat)              -- `recover_from_wal` called on the live coordinator
-  | crash (n : Nat) (now : Nat)      -- file cut to its first `n` bytes, process restarted
+  | recoverMem (now : Nat)           -- `recover()`
+  | decisions                        -- `get_pending_decisions()`
+  | forceResolve (id : Nat) (commitIt : Bool)
+  | crash (n : Nat) (now : Nat) (cfg : Cfg)  -- file cut to its first `n` bytes, new process with `cfg`
   deriving DecidableEq, Repr
+
+/-- bytes one record takes in the file: 4 (length) + 4 (crc) + payload -/
+def recSize (ser : Entry → List Nat) (e : Entry) : Nat := 8 + (ser e).length
 
 /-- one step of the system; `crash` works on the real bytes of the file -/
 def step (crc : List Nat → Nat) (ser : Entry → List Nat) (de : List Nat → Option Entry)
     (c : Coord) : Step → Coord × Res
   | .lock tx h => lockAcquire c tx h
-  | .begin id parts now => begin c id parts now
-  | .vote id shard v x => recordVote c id shard v x
-  | .commit id => commit c id
-  | .abort id => abort c id
+  | .begin id parts now => begin (recSize ser) c id parts now
+  | .vote id shard v x => recordVote (recSize ser) c id shard v x
+  | .commit id => commit (recSize ser) c id
+  | .abort id => abort (recSize ser) c id
   | .completeCommit id => completeCommit c id
   | .completeAbort id => completeAbort c id
   | .cleanup now => cleanupTimeouts c now
-  | .flushAborts => flushAborts c
+  | .flushAborts => flushAborts (recSize ser) c
   | .recover now => recoverFromWal c now
-  | .crash n now =>
-      match restartBytes crc de c.cfg ((fileOf crc ser c.log).take n) now with
+  | .recoverMem now => recoverMem c now
+  | .decisions => (c, .decisions (pendingDecisions c))
+  | .forceResolve id b => forceResolve c id b
+  | .crash n now cfg =>
+      match restartBytes crc de cfg ((fileOf crc ser c.log).take n) now with
       | some c' => (c', .ok)
-      | none => ({ cfg := c.cfg }, .notFound)
+      | none => ({ cfg := cfg }, .notFound)
 
 def run (crc : List Nat → Nat) (ser : Entry → List Nat) (de : List Nat → Option Entry)
     (c : Coord) (steps : List Step) : Coord :=
@@ -432,12 +549,35 @@ def Event.id : Event → Nat
   | .aborted i => i
   | .timedOut i => i
 
-def events : Step → Res → List Event
+/-- the fates a call on state `c` that answered `r` reports (`recover()` only reports a count;
+    the transactions it timed out are the ones it moved to Aborting for that reason) -/
+def events (c : Coord) : Step → Res → List Event
   | .commit id, .ok => [.committed id]
   | .completeCommit id, .ok => [.committed id]
   | .abort id, .ok => [.aborted id]
   | .completeAbort id, .ok => [.aborted id]
+  | .forceResolve id true, .ok => [.committed id]
+  | .forceResolve id false, .ok => [.aborted id]
   | .cleanup _, .timedOut ids => ids.map Event.timedOut
+  | .recoverMem now, .recStats _ _ _ _ _ =>
+      ((c.pending.filter (fun p => (decide (p.2.phase = .preparing) || decide (p.2.phase = .prepared))
+          && p.2.timedOut now)).map (fun p => Event.timedOut p.1))
   | _, _ => []
+
+/-- `record_vote` answered `Ok(Some(Prepared))`: the transaction as the coordinator holds it at
+    that moment (participants, accepted votes) -/
+def preparedAck (c' : Coord) : Step → Res → List (Nat × Tx)
+  | .vote id _ _ _, .phase (some .prepared) =>
+      match mLookup id c'.pending with
+      | some tx => [(id, tx)]
+      | none => []
+  | _, _ => []
+
+/-- every Prepared acknowledgement of a run, oldest first -/
+def acks (crc : List Nat → Nat) (ser : Entry → List Nat) (de : List Nat → Option Entry) :
+    Coord → List Step → List (Nat × Tx)
+  | _, [] => []
+  | c, s :: ss =>
+    preparedAck (step crc ser de c s).1 s (step crc ser de c s).2 ++ acks crc ser de (step crc ser de c s).1 ss
 
 end Neumann.TxWal
